@@ -5,3 +5,9 @@
 mod verif_c17 {
     include!(concat!(env!("KOGE29_VERIF_DIR"), "/kani/h_c17.rs"));
 }
+
+#[cfg(all(test, not(kani)))]
+#[allow(dead_code, unused_imports)]
+mod native_c17 {
+    include!(concat!(env!("KOGE29_VERIF_DIR"), "/kani/native_c17.rs"));
+}
